@@ -25,9 +25,12 @@ enum Op {
     DropOldest,
     DropNewest,
     DropNewestOnThread,
+    /// The newest stream is owned by a thread that panics: it is dropped
+    /// while that thread unwinds; the process goes on.
+    DropNewestInPanic,
 }
 
-const OPS: [Op; 9] = [
+const OPS: [Op; 10] = [
     Op::Create1,
     Op::Create2,
     Op::CreateBad100,
@@ -37,6 +40,7 @@ const OPS: [Op; 9] = [
     Op::DropOldest,
     Op::DropNewest,
     Op::DropNewestOnThread,
+    Op::DropNewestInPanic,
 ];
 
 enum AnyBuf {
@@ -97,6 +101,17 @@ fn run_seq(seq: &[Op]) -> Result<(), (String, String)> {
             Op::DropNewestOnThread => {
                 if let Some(b) = live.pop() {
                     std::thread::spawn(move || drop(b)).join().unwrap();
+                }
+            }
+            Op::DropNewestInPanic => {
+                if let Some(b) = live.pop() {
+                    let r = std::thread::spawn(move || {
+                        let _owned = b;
+                        // No panic hook, no message: just the unwinding.
+                        std::panic::resume_unwind(Box::new(()));
+                    })
+                    .join();
+                    assert!(r.is_err());
                 }
             }
             _ => {}
@@ -190,13 +205,15 @@ fn warm() {
     let _ = count_maps();
     let _ = count_fds();
     let _ = std::thread::spawn(|| drop(Buffer::<u8>::new(PAGE))).join();
+    // First unwinding loads the unwinder's tables (mappings of its own).
+    let _ = std::thread::spawn(|| std::panic::resume_unwind(Box::new(()))).join();
 }
 
 pub fn run(tier: &str, shard: Option<&str>) -> Report {
     let depth = if tier == "thorough" { 6 } else { 5 };
     let mut rep = Report::new("C18", "maps");
     rep.rule = "all sequences up to the depth over {create 1 page, create 2 pages, create u64 stream, create with size 100, \
-        with size 4097, with element size 3, drop oldest, drop newest, drop newest on another thread}; after every operation \
+        with size 4097, with element size 3, drop oldest, drop newest, drop newest on another thread, drop newest on a thread that is unwinding from a panic}; after every operation \
         the number of lines in /proc/self/maps and entries in /proc/self/fd must equal baseline + 2 per live stream, + 0; \
         surviving streams are written through the upper half and read back through the lower half, every byte; a sequence is \
         non-trivial if it creates at least one stream"
@@ -218,10 +235,10 @@ pub fn run(tier: &str, shard: Option<&str>) -> Report {
                 // Drops on nothing are no-ops: prune to keep the space small.
                 let live = s.iter().fold(0i32, |a, o| match o {
                     Op::Create1 | Op::Create2 | Op::CreateU64 => a + 1,
-                    Op::DropOldest | Op::DropNewest | Op::DropNewestOnThread => (a - 1).max(0),
+                    Op::DropOldest | Op::DropNewest | Op::DropNewestOnThread | Op::DropNewestInPanic => (a - 1).max(0),
                     _ => a,
                 });
-                if live == 0 && matches!(o, Op::DropOldest | Op::DropNewest | Op::DropNewestOnThread) {
+                if live == 0 && matches!(o, Op::DropOldest | Op::DropNewest | Op::DropNewestOnThread | Op::DropNewestInPanic) {
                     continue;
                 }
                 let mut t = s.clone();
